@@ -18,8 +18,8 @@ authored content, i.e. the spec side).
      emitted BEFORE that text (`C02_witness_image_after_text`);
    * (repaired in /repo 67304722) `use_xref_streams` with `compress_streams = false` declared
      `/Filter /FlateDecode` over raw cross-reference data (C03-F1, every document);
-   * `use_object_streams` with a classic table leaves every non-stream object without an entry
-     (`C03_witness_classic_objstm_unreachable`, every document).
+   * (repaired in /repo 4d9cdfbe) `use_object_streams` with a classic table left every non-stream
+     object without an entry (C03-F2, every document).
 
    PROVED here (unbounded, no sample enumeration):
    * operator order: under the decidable hypothesis `orderSafe` (no image drawn while text is
